@@ -13,12 +13,12 @@ namespace Iscp.Store
 /-- FRAME (storage): Store / Remove / List / Clear on stream `a` never change what stream `b ≠ a` holds. -/
 theorem C07.store_frame (np : Bool) (s : St) (op : Op) (b : Nat) (h : op.sid ≠ b) :
     view (step np s op).1 b = view s b := by
-  sorry
+  exact store_frame_aux np s op b h
 
 /-- a step on stream `b` reads and writes only `b`'s view -/
 theorem C07.store_local (np : Bool) (s s' : St) (op : Op) (h : view s op.sid = view s' op.sid) :
     (step np s op).2 = (step np s' op).2 ∧ view (step np s op).1 op.sid = view (step np s' op).1 op.sid := by
-  sorry
+  exact store_local_aux np s s' op h
 
 /-- outputs of a history, in order -/
 def outs (np : Bool) (s : St) : List Op → List (Nat × Out)
@@ -31,33 +31,59 @@ def outs (np : Bool) (s : St) : List Op → List (Nat × Out)
 theorem C07.store_noninterference (np : Bool) (s : St) (ops : List Op) (b : Nat) :
     view (run np s ops) b = view (run np s (ops.filter (·.sid = b))) b ∧
     (outs np s ops).filter (·.1 = b) = outs np s (ops.filter (·.sid = b)) := by
-  sorry
+  suffices H : ∀ (ops : List Op) (s s' : St), view s b = view s' b →
+      view (run np s ops) b = view (run np s' (ops.filter (·.sid = b))) b ∧
+      (outs np s ops).filter (·.1 = b) = outs np s' (ops.filter (·.sid = b)) from H ops s s rfl
+  intro ops
+  induction ops with
+  | nil => intro s s' h; exact ⟨h, rfl⟩
+  | cons op r ih =>
+    intro s s' h
+    by_cases hb : op.sid = b
+    · subst hb
+      have hl := C07.store_local np s s' op h
+      have := ih _ _ hl.2
+      simp only [List.filter_cons, decide_true, if_true, run_cons, outs, hl.1, this, and_self]
+    · have hf := C07.store_frame np s op b hb
+      have := ih (step np s op).1 s' (hf.trans h)
+      simp only [List.filter_cons, hb, decide_false, run_cons, outs, this, and_self, if_false, Bool.false_eq_true]
 
 /-- functional correctness of the storage as a map: a stored chunk is listed and removed with the stored content
     (payload dropped by the no-payload wrapper, nothing else), until it is removed or the stream is cleared. -/
 theorem C07.store_then_list (np : Bool) (s : St) (sid seq : Nat) (v : Groups) :
     ∃ m, (step np (step np s (.store sid seq v)).1 (.list sid)).2 = .listed m ∧
       alGet seq m = some (if np then v.withoutPayload else v) := by
-  sorry
+  refine ⟨alPut seq (if np then v.withoutPayload else v) ((alGet sid s).getD []), ?_, alGet_alPut_self seq _ _⟩
+  simp only [step, alGet_alPut_self]
 
 theorem C07.store_then_remove (np : Bool) (s : St) (sid seq : Nat) (v : Groups) :
     (step np (step np s (.store sid seq v)).1 (.remove sid seq)).2 = .removed (if np then v.withoutPayload else v) := by
-  sorry
+  simp only [step, alGet_alPut_self]
 
 theorem C07.remove_then_gone (np : Bool) (s : St) (sid seq : Nat) (v : Groups)
     (h : (step np s (.remove sid seq)).2 = .removed v) :
     (step np (step np s (.remove sid seq)).1 (.remove sid seq)).2 = .notFoundSeq := by
-  sorry
+  simp only [step] at h ⊢
+  split at h
+  · cases h
+  · split at h
+    · cases h
+    · simp only [alGet_alPut_self, alGet_alDel_self]
 
 theorem C07.clear_then_empty (np : Bool) (s : St) (sid : Nat) :
     view (step np s (.clear sid)).1 sid = none := by
-  sorry
+  exact alGet_alDel_self sid s
 
 /-- the no-payload wrapper keeps ids, point counts and elapsed times -/
 theorem C07.no_payload_keeps_shape (gs : Groups) :
     gs.withoutPayload.map (·.id) = gs.map (·.id) ∧
     gs.withoutPayload.map (fun g => g.points.map (·.elapsed)) = gs.map (fun g => g.points.map (·.elapsed)) := by
-  sorry
+  simp only [Groups.withoutPayload, List.map_map]
+  constructor
+  · rfl
+  · congr 1; funext g
+    simp only [Function.comp, Group.withoutPayload, List.map_map]
+    rfl
 
 example : view (run false [] [.store 1 1 [⟨5, [⟨3, [1, 2]⟩]⟩], .store 2 1 [], .clear 2]) 1 = some [(1, [⟨5, [⟨3, [1, 2]⟩]⟩])] := by decide
 
@@ -69,11 +95,11 @@ namespace Iscp.Corr
     acks, chunks (both channels), ack-completes and metadata queues of `b`. -/
 theorem C07.route_frame (t : Tables) (e : REv) (a b : Nat) (h : e.target t = some a) (hb : b ≠ a) :
     rview (rstep t e).1 b = rview t b := by
-  sorry
+  exact route_frame_aux t e a b h hb
 
 /-- closing a stream id that is not registered changes nothing at all -/
 theorem C07.route_close_unknown (t : Tables) (e : REv) (h : e.target t = none) : (rstep t e).1 = t := by
-  sorry
+  cases e <;> simp only [REv.target] at h <;> first | cases h | simp only [rstep, h]
 
 /-- a message for an alias (or source node) nobody subscribed to is dropped without changing any table -/
 theorem C07.route_unknown_alias (t : Tables) (a n tok : Nat) :
@@ -82,18 +108,18 @@ theorem C07.route_unknown_alias (t : Tables) (a n tok : Nat) :
     (alGet a t.dpsU = none → rstep t (.chunkU a tok) = (t, .unknown)) ∧
     (alGet a t.ackc = none → rstep t (.ackComplete a tok) = (t, .unknown)) ∧
     (alGet a t.metaq = none → rstep t (.metadata a n tok) = (t, .unknown)) := by
-  sorry
+  refine ⟨?_, ?_, ?_, ?_, ?_⟩ <;> intro h <;> simp only [rstep, enqueue, h]
 
 /-- closing a stream removes exactly its own alias's entries -/
 theorem C07.route_close_removes_own (t : Tables) (sid a : Nat) (h : alGet sid t.downAlias = some a) :
     rview (rstep t (.closeDown sid)).1 a = (alGet a t.acks, none, none, none, none) := by
-  sorry
+  simp only [rstep, h, rview, alGet_alDel_self]
 
 /-- per alias, acks are handed to the stream in arrival order, each once (below the queue capacity) -/
 theorem C07.route_fifo (t : Tables) (a : Nat) (q : List Nat) (toks : List Nat)
     (h : alGet a t.acks = some q) (hc : q.length + toks.length ≤ qcap) :
     (rstep (toks.foldl (fun t tok => (rstep t (.ack a tok)).1) t) (.drainAck a)).2 = .items (q ++ toks) := by
-  sorry
+  exact route_fifo_aux toks t a q h hc
 
 example : (rstep (rstep (rstep {} (.openUp 7 3)).1 (.ack 3 11)).1 (.drainAck 3)).2 = .items [11] := by decide
 
